@@ -66,6 +66,11 @@ claim("C10", "E2 differential + E1 model",
       "&[char] is the reference; &str, &[char;N], Stream (plain, boxed, exact-size boxed, counting), IterInput, mapped (token,span) slice, Stream::map, with_context, map_span are normalised to token indices and compared field by field (acceptance, outputs with extents, every error, state, probe trace); inputs of 511..1301 tokens with alternatives failing across the 512-token batch; the counting iterator must be pulled 0,1,2,.. exactly once each; u8 grammars on &[u8] / IoInput / Stream / array; Graphemes tokens and spans against unicode-segmentation.",
       MODEL_NOTE + " IterInput only implements Input, so its leaf basis is restricted.", "DESIGN §5 C10")
 
+claim("C16", "E1 model + independent recogniser",
+      "runtime monitoring: reference-model monitor over executions of a.nested_in(b.to_slice()) at arbitrary positions and nesting on three input kinds + token-tree family (spanned tokens, depth <= 4) against an independent recursive recogniser",
+      "Grammars with nested_in (exhaustive small, shaped, random) on &[char], &str and a gapped-span mapped slice, parse and check: inner grammar sees exactly b's tokens, must match completely, outer advances by b's extent, inner emissions and inner failure surface, enclosing choices/repetitions backtrack over a failed nested parse, inspector state continues; random token trees parsed by a recursive nested_in grammar (strict and with a fallback alternative) vs an independent recogniser.",
+      MODEL_NOTE + " A6: spans of errors produced inside a nested input are not compared.", "DESIGN §5 C16")
+
 NOT_CLAIMED = {}
 
 
